@@ -1,6 +1,7 @@
 import QF.Props.C18Matcher
 import QF.Props.C18FilterGen
 import QF.Props.C18UpperGen
+import QF.Props.C18Utf8
 import QF.Props.C02Dispatch
 import QF.Props.C02ClausesLink
 /-!
@@ -12,6 +13,8 @@ The pieces (each proved over the terms regenerated TODAY from /repo):
                    `runMatcher (matcherKind pat) (trimPercent pat)` / `ciMatch`, or the regular expression `regexSource pat cs`;
 * `C18Like`      — the mirror decides the declarative `Matches pat s` (`like_correct`, `ilike_correct`);
 * `C18UpperGen` / `U.toUpper_spec'` — the package's `ToUpper` = `encode (map up s)` (inside `ciMatch`);
+* `C18Utf8`      — the project's decoder reads back the encoding of every code point (`decodeAll (encs chars) = chars`), so the
+                   regenerated `ToUpper` IS the `toUpperBuf` of `today` on every valid UTF-8 cell (`gen_like_upper_cell`, no hypothesis);
 * `C18FilterGen` — `regexFilter` / `filterLike` statement by statement (`Gen.stringsFns`), for ANY meaning of `NewMatcher`;
 * `C02Kernels`   — `Column.filterWithBitset` (`Gen.kernelAst`): the mask entry of a row is `b || bset.isSet(code of the row)`;
 * `C02Dispatch`  — `filterBuiltIn` of scolumn / ecolumn (`Gen.dispatchAst` + tables + kernels) for ANY like oracle;
@@ -394,21 +397,58 @@ theorem err_of_error {pat : Bytes} {cs : Bool} (hm : genNewMatcher up bufLen rx 
   · intro O hO fr hfr l c hc hcmp harg hty
     rw [filter_leaf O hO _ fr hfr l, (leafPred_like (genOracle up bufLen rx rxErr) fr l c cs pat hc hcmp harg hty).1 hv]
 
+/-! ## 2b. The upper-casing inside the ilike leaves is the regenerated `ToUpper` (valid UTF-8 cells) -/
+
+/-- the upper-casing inside the case-insensitive leaves: `today up bufLen` takes the package's `ToUpper(&buf, cell)` to be the
+mirror `U.toUpper up bufLen (decodeAll cell)`. The regenerated `ToUpper` (`Gen.stringsFns`, C18UpperGen) returns exactly that on
+EVERY cell that is valid UTF-8 (the encoding `encs chars` of a list of code points), for every initial buffer and every
+environment whose UTF-8 primitives are right (`UpperEnv`; `C18UpperGen.coreEnv_ok`, `C18Utf8.jsonEnv_ok`): the project's decoder
+reads the code points back (`C18Utf8.decodeAll_encs`). -/
+theorem gen_like_upper_cell (Γ : ST.Env) (hΓ : C18UpperGen.UpperEnv Γ up) (buf : Option Bytes) (chars : List Char) :
+    C18UpperGen.genToUpper Γ buf (C18UpperGen.encs chars) =
+      some [.str ((today up (buf.getD []).length).toUpperBuf (C18UpperGen.encs chars))] := by
+  rw [C18UpperGen.gen_toUpper_semantics Γ up hΓ]
+  simp only [today, C18Utf8.decodeAll_encs]
+
+/-- **the ilike matcher on valid UTF-8 cells, from regenerated terms only**: `NewMatcher` as regenerated returns a matcher `f`;
+on the cell `encs chars` the regenerated `ToUpper` (any right environment, any buffer of `bufLen` bytes, nil if `bufLen = 0`)
+returns `u` = the encoding of the mapped code points; `f` answers what the `Matches` body of the leaf answers on `u` with the
+upper-cased pattern; and (case mapping `PctStable`) that is the declarative `Matches (upper pat) (encode (map up chars))`. -/
+def IlikeCells (pat : Bytes) : Prop :=
+  ∀ (Γ : ST.Env), C18UpperGen.UpperEnv Γ up → ∀ (buf : Option Bytes), (buf.getD []).length = bufLen → ∀ chars : List Char,
+    ∃ f u, genNewMatcher up bufLen rx rxErr pat false = .ok f ∧
+      C18UpperGen.genToUpper Γ buf (C18UpperGen.encs chars) = some [.str u] ∧
+      u = C18UpperGen.encs (chars.map up) ∧ upper up (C18UpperGen.encs chars) = u ∧
+      f (C18UpperGen.encs chars) = runMatcher (matcherKind pat) (matchString (matcherKind pat) (upper up pat)) u ∧
+      (PctStable up → (f (C18UpperGen.encs chars) = true ↔ Matches (upper up pat) (C18UpperGen.encs (chars.map up))))
+
+theorem gen_ilike_cells (pat : Bytes) (hm : hasMeta pat = false) : IlikeCells up bufLen rx rxErr pat := by
+  intro Γ hΓ buf hbuf chars
+  have hu : C18UpperGen.genToUpper Γ buf (C18UpperGen.encs chars) = some [.str (C18UpperGen.encs (chars.map up))] :=
+    C18UpperGen.gen_toUpper_spec Γ up hΓ buf chars
+  refine ⟨_, _, genNewMatcher_ilike up bufLen rx rxErr pat hm, hu, rfl, C18Utf8.upper_encs up chars, ?_, fun hup => ?_⟩
+  · unfold ciMatch
+    rw [C18Utf8.decodeAll_encs, U.toUpper_spec']; rfl
+  · rw [ilike_correct hup, C18Utf8.upper_encs]
+
 /-- **`gen_like_end_to_end`.** For every pattern, both case settings, every case mapping, scratch-buffer size and
 regular-expression engine:
 1. no metacharacters, like: `LikeE2E` with `accept = Matches pat` — today's code keeps exactly the rows whose cell is not null
    and satisfies the declarative wildcard semantics;
-2. no metacharacters, ilike, `PctStable up`: `LikeE2E` with `accept s = Matches (upper up pat) (upper up s)`;
+2. no metacharacters, ilike, `PctStable up`: `LikeE2E` with `accept s = Matches (upper up pat) (upper up s)`; and (`IlikeCells`)
+   on every cell that is valid UTF-8 the upper-casing inside the matcher is the regenerated `ToUpper`, which returns the encoding
+   of the mapped code points (= `upper up cell`);
 3. metacharacters: the engine is asked for `regexSource pat cs`; if that compiles, `LikeE2E` with `accept s = (rx src s = true)`,
    if not, `LikeErr`. -/
 theorem gen_like_end_to_end (pat : Bytes) :
     (hasMeta pat = false →
       LikeE2E up bufLen rx rxErr pat true (Matches pat) ∧
-      (PctStable up → LikeE2E up bufLen rx rxErr pat false (fun s => Matches (upper up pat) (upper up s)))) ∧
+      (PctStable up → LikeE2E up bufLen rx rxErr pat false (fun s => Matches (upper up pat) (upper up s))) ∧
+      IlikeCells up bufLen rx rxErr pat) ∧
     (hasMeta pat = true → ∀ cs,
       (rxErr (regexSource pat cs) = false → LikeE2E up bufLen rx rxErr pat cs (fun s => rx (regexSource pat cs) s = true)) ∧
       (rxErr (regexSource pat cs) = true → LikeErr up bufLen rx rxErr pat cs)) := by
-  refine ⟨fun hm => ⟨?_, fun hup => ?_⟩, fun hm cs => ⟨fun he => ?_, fun he => ?_⟩⟩
+  refine ⟨fun hm => ⟨?_, fun hup => ?_, gen_ilike_cells up bufLen rx rxErr pat hm⟩, fun hm cs => ⟨fun he => ?_, fun he => ?_⟩⟩
   · exact e2e_of_ok up bufLen rx rxErr (genNewMatcher_like up bufLen rx rxErr pat hm) (fun s => like_correct pat s)
   · exact e2e_of_ok up bufLen rx rxErr (genNewMatcher_ilike up bufLen rx rxErr pat hm) (fun s => ilike_correct hup bufLen pat s)
   · exact e2e_of_ok up bufLen rx rxErr (by rw [genNewMatcher_regex up bufLen rx rxErr pat cs hm, he]; rfl) (fun s => Iff.rfl)
@@ -444,19 +484,6 @@ theorem genNewMatcher_cases (pat : Bytes) (cs : Bool) :
     · exact Or.inl ⟨_, rfl⟩
     · exact Or.inr ⟨rfl, rfl, rfl⟩
 
-/-- the upper-casing inside the case-insensitive leaves: `today up bufLen` takes the package's `ToUpper(&buf, cell)` to be the
-mirror `U.toUpper up bufLen (decodeAll cell)`. The regenerated `ToUpper` (`Gen.stringsFns`, C18UpperGen) returns exactly that on
-every cell that is the UTF-8 encoding of code points `chars` which the decoder of the model reads back (`decodeAll (encs chars) =
-chars`; not proved here for all `chars`, see the report), for every initial buffer. -/
-theorem gen_like_upper_cell (Γ : ST.Env) (hΓ : C18UpperGen.UpperEnv Γ up) (buf : Option Bytes) (chars : List Char)
-    (hd : decodeAll (C18UpperGen.encs chars) = chars) :
-    C18UpperGen.genToUpper Γ buf (C18UpperGen.encs chars) =
-      some [.str ((today up (buf.getD []).length).toUpperBuf (C18UpperGen.encs chars))] := by
-  rw [C18UpperGen.gen_toUpper_semantics Γ up hΓ]
-  simp only [today, hd]
-
-example : decodeAll (C18UpperGen.encs ['x', 'é', 'b']) = ['x', 'é', 'b'] := by decide +kernel
-
 /-! ## Concrete instances -/
 
 section Examples
@@ -482,7 +509,15 @@ example : PctStable (upOf stAB) := stAB_stable
 example : LikeE2E id 10 rx0 rxErr0 [37, 97, 98] true (Matches [37, 97, 98]) :=
   ((gen_like_end_to_end id 10 rx0 rxErr0 _).1 (by decide +kernel)).1
 example : LikeE2E (upOf stAB) 10 rx0 rxErr0 [37, 97, 98] false (fun s => Matches (upper (upOf stAB) [37, 97, 98]) (upper (upOf stAB) s)) :=
-  ((gen_like_end_to_end (upOf stAB) 10 rx0 rxErr0 _).1 (by decide +kernel)).2 stAB_stable
+  ((gen_like_end_to_end (upOf stAB) 10 rx0 rxErr0 _).1 (by decide +kernel)).2.1 stAB_stable
+/-- `IlikeCells` on a concrete cell: "xéb" (é is two bytes) with the environment of the project's own decoder / encoder and a
+buffer of 10 bytes; the regenerated `ToUpper` run by the kernel on it with the table a→A, b→B returns "xéB" -/
+example : IlikeCells (upOf stAB) 10 rx0 rxErr0 [37, 97, 98] :=
+  ((gen_like_end_to_end (upOf stAB) 10 rx0 rxErr0 _).1 (by decide +kernel)).2.2
+example : C18UpperGen.UpperEnv (C18Utf8.jsonEnv (upOf stAB) 100) (upOf stAB) := C18Utf8.jsonEnv_ok _ _
+example : ((some (List.replicate 10 0) : Option Bytes).getD []).length = 10 := rfl
+example : (match C18UpperGen.genToUpper (C18Utf8.jsonEnv (upOf stAB) 100) (some (List.replicate 10 0)) (C18UpperGen.encs ['x', 'é', 'b']) with
+    | some [.str u] => some u | _ => none) = some (C18UpperGen.encs ['x', 'é', 'B']) := by decide +kernel
 /-- "", "%" and "%%" are patterns without metacharacters: "" keeps exactly the empty strings, "%" and "%%" every non-null cell -/
 example : hasMeta [] = false ∧ hasMeta [37] = false ∧ hasMeta [37, 37] = false := by decide +kernel
 /-- "a.b%" has a metacharacter: the engine is asked for `^a.b`, and for `(?i)^a.b` by ilike; "a[%" does not compile in `rxErr0` -/
@@ -512,3 +547,5 @@ end QF.Props.C18EndToEnd
 #print axioms QF.Props.C18EndToEnd.genNewMatcher_cases
 #print axioms QF.Props.C18EndToEnd.gen_like_end_to_end
 #print axioms QF.Props.C18EndToEnd.gen_like_string_enum_agree
+#print axioms QF.Props.C18EndToEnd.gen_like_upper_cell
+#print axioms QF.Props.C18EndToEnd.gen_ilike_cells
